@@ -1,11 +1,26 @@
 """C05 — generic operations conserve values: rvalues moved once, lvalues untouched."""
+import glob
 import itertools
+import os
 
+from vlib import paths
 from vlib.runner import Batch
 
 ID = "C05"
 LEAN_PROPS = ["FcpptProofs.Props.C05"]
-HARNESS = {"src": "harness/c05.cpp"}
+
+
+def _repo_srcs():
+    # fcppt::options / exceptions / type names are compiled in (options::flag / option constructors, parse_string)
+    r = []
+    for pat in ("libs/options/src/options/*.cpp", "libs/options/src/options/detail/*.cpp", "libs/options/impl/src/options/impl/*.cpp"):
+        r += sorted(os.path.relpath(f, paths.REPO) for f in glob.glob(os.path.join(paths.REPO, pat)))
+    r += ["libs/core/src/exception.cpp", "libs/core/src/insert_extract_locale.cpp", "libs/core/src/from_std_string.cpp",
+          "libs/core/src/type_name_from_info.cpp", "libs/core/src/type_name.cpp"]
+    return r
+
+
+HARNESS = {"src": "harness/c05.cpp", "repo_srcs": _repo_srcs(), "flags": [], "libs": []}
 TIE = ("hand-written transfer programs (FcpptModel/Model/C05.lean over the machine of Model/C05/Machine.lean) + differential "
        "correspondence: the real templates instantiated with an instrumented element type (identity, live/moved-from, copy/move/read "
        "log) and its move-only twin; only the event abstraction is compared")
@@ -73,6 +88,24 @@ def mask_shapes(maxn):
 
 
 BIT = lambda s: [[0], [1]]
+
+DIMS = [(0, 0), (1, 1), (2, 1), (1, 2), (2, 2)]
+DIMS_MORE = DIMS + [(3, 1), (1, 3), (0, 2), (3, 2)]
+
+
+def grid_shapes(k):
+    def shapes(maxn):
+        dims = DIMS_MORE if maxn > 3 else DIMS
+        for ds in itertools.product(dims, repeat=k):
+            yield tuple(w * h for w, h in ds), [x for d in ds for x in d]
+    return shapes
+
+
+def grid_resize_shapes(maxn):
+    dims = DIMS_MORE if maxn > 3 else DIMS + [(3, 1), (1, 3)]
+    for (w, h) in (DIMS_MORE if maxn > 3 else DIMS):
+        for (w2, h2) in dims:
+            yield (w * h,), [w, h, w2, h2]
 
 
 def one(pars, nargs=1):
@@ -142,6 +175,21 @@ def table():
         ("recpermute", [ANY], sized(1, par=lambda s: [list(p) for p in itertools.permutations(range(s[0]))], cap=3), rv_only),
         ("recmuldisj", [ANY, ANY], sized(2, cap=2), rv_only),
         ("contmake", ["ir", "ir"], one([[]], 2), always),
+        # grids (2 dimensions); par = the dimensions
+        ("gridmap", [ANY], grid_shapes(1), always),
+        ("gridapply2", [ANY, ANY], grid_shapes(2), always),
+        ("gridresize", [ANY], grid_resize_shapes, rv_only),
+        # trees: root value + leaf children
+        ("treector", [ANY], one([[]]), rv_only),
+        ("treepushval", ["i", ANY], sized(2, {0: [1, 2, 3], 1: [1]}), lambda cats: cats[1] == "r"),
+        ("treepushtree", ["i", "r"], sized(2, {0: [1, 2, 3], 1: [1]}), always),
+        ("treerelease", ["i"], lambda maxn: [((n,), [i]) for n in range(2, maxn + 2) for i in range(n - 1)], always),
+        ("treemap", [ANY], lambda maxn: [((n,), []) for n in range(1, maxn + 2)], always),
+        # options constructors taking element values; parse results
+        ("optsflag", ["r", "r"], one([[]], 2), always),
+        ("optsoption", ["r"], opt_sized(1), always),
+        ("parseseq", [], lambda maxn: [((), [k]) for k in range(3)], always),
+        ("parserep", [], lambda maxn: [((), [k]) for k in range(maxn + 2)], always),
         ("eithfirst", [], lambda maxn: [((), list(m)) for ln in range(maxn + 1) for m in itertools.product([0, 1], repeat=ln)], always),
     ]
 
@@ -169,8 +217,17 @@ def lines_for(row, maxn):
     return out
 
 
+def equivalent(op, impl, model):
+    """the move-only instantiation of a parser cannot be asked what it stores (parse copies): the harness prints r=?"""
+    if " r=? " in impl:
+        import re
+        return impl == re.sub(r" r=\S+ ", " r=? ", model)
+    return False
+
+
 def nontrivial(op, result):
-    return any(":" in t and not t.endswith(":-") for t in op.split()[3:])
+    t = op.split()
+    return any(":" in x and not x.endswith(":-") for x in t[3:]) or (t[2] == "0" and len(t) > 3)
 
 
 def batches(rng, tier):
